@@ -227,57 +227,89 @@ def dispatcher(ctx):
     f = ctx.fn("patronus", P + "parse_line")
     ix = Index(f["body"])
     want = {"UNARY_OPS_SET": "parse_unary_op", "BINARY_OPS_SET": "parse_bin_op"}
+    # which parser is reached under which operator condition: the conditions of every parse_* call site, with a classification enum
+    # (`LineKind::classify(op)` .. `match kind { LineKind::Unary => .. }`) replaced by the operator tests that select its variants
     seen = {}
-    for n in ix.nodes:
-        if n.get("k") == "if":
-            b, ms = chain(n["cond"])
-            if [x[0] for x in ms] == ["contains"] and b.get("k") in ("def", "unary"):
-                nm = show(b).replace("*", "").split("::")[-1]
-                calls = [x for x in walk(n["then"]) if x.get("k") == "mcall" and (callee(x) or "").startswith(P + "parse_")]
-                seen[nm] = [callee(x).split("::")[-1] for x in calls]
+    from .. import norm as norm__
+    for x in ix.nodes:
+        if not (x.get("k") == "mcall" and (callee(x) or "").startswith(P + "parse_")):
+            continue
+        cname = callee(x).split("::")[-1]
+        for conds in norm__.expand_enum_conditions(ix, norm__.path_conditions(ix, x, arms=True)):
+            keys = []
+            for c_, pol in conds:
+                if not pol:
+                    continue
+                if c_.get("k") == "armpat":
+                    for alt in pat_alts(c_["pat"]):
+                        while alt.get("k") in ("pref", "pderef"):
+                            alt = alt["pat"]
+                        if alt.get("k") == "plit" and isinstance(alt.get("v"), str):
+                            keys.append(alt["v"])
+                else:
+                    b, ms = chain(c_)
+                    if [y[0] for y in ms] == ["contains"] and b.get("k") in ("def", "unary"):
+                        keys.append(show(b).replace("*", "").split("::")[-1])
+            for k_ in keys:
+                if cname not in seen.setdefault(k_, []):
+                    seen[k_].append(cname)
     for s_, fn_ in want.items():
         ctx.inst("R08.4", "dispatch:%s" % s_, seen.get(s_) == [fn_], f["span"], "operators in %s must be dispatched to %s (found %s)" % (s_, fn_, seen.get(s_)))
-    oa = op_arms(f)
-    if oa:
-        _, arms, _ = oa
-        for op, fn_ in (("ite", "parse_ternary_op"), ("write", "parse_ternary_op"), ("const", "parse_format"), ("constd", "parse_format"), ("consth", "parse_format"), ("zero", "parse_format"), ("one", "parse_format"), ("ones", "parse_ones"),
-                        ("sort", "parse_sort"), ("state", "parse_state"), ("input", "parse_input"), ("init", "parse_state_init_or_next"), ("next", "parse_state_init_or_next")):
-            arm = arms.get(op)
-            calls = [callee(x).split("::")[-1] for x in walk(arm["body"]) if x.get("k") == "mcall" and (callee(x) or "").startswith(P + "parse_")] if arm else None
-            ctx.inst("R08.4", "dispatch:%s" % op, calls == [fn_], arm["sp"] if arm else f["span"], "`%s` must be handled by %s (found %s)" % (op, fn_, calls))
-        # init vs next flag
-        arm = arms.get("init")
-        if arm:
-            c = [x for x in walk(arm["body"]) if x.get("k") == "mcall" and callee(x) == P + "parse_state_init_or_next"]
-            ok = False
-            if len(c) == 1:
-                fl = resolve(c[0]["args"][2])
-                sid = local_id(oa[0]["scrut"])
-                if fl.get("k") == "binary" and fl["op"] == "==" and sid is not None:
-                    for a_, b_ in ((fl["l"], fl["r"]), (fl["r"], fl["l"])):
-                        if is_local(a_, sid) and peel(b_).get("k") == "lit" and peel(b_).get("v") == "init":
-                            ok = True
-            ctx.inst("R08.4", "dispatch:init-flag", ok, arm["sp"], "init/next lines must pass `op == \"init\"` as the is-init flag: %s" % (show(c[0]["args"][2]) if c else "?"))
-        # output / bad / constraint push the referenced expression (token 2) to the right list
-        arm = arms.get("output")
-        if arm:
-            defs = local_defs(f)
-            inner = None
-            for n in walk(arm["body"]):
-                if n.get("k") == "match" and n.get("src") == "match":
-                    inner = n
-                    break
-            if inner is not None:
-                rows = {}
-                for alt, a2 in match_arms(inner):
-                    if alt.get("k") == "plit":
-                        pushes = [x for x in walk(a2["body"]) if x.get("k") == "mcall" and x["name"] == "push"]
-                        rows[alt["v"]] = [field_path(x["recv"])[2][-1] if field_path(x["recv"]) else "?" for x in pushes]
-                want = {"output": ["outputs"], "bad": ["bad_states"], "constraint": ["constraints"]}
-                for k_, v_ in want.items():
-                    ctx.inst("R08.4", "dispatch:%s-list" % k_, rows.get(k_) == v_, inner["sp"], "`%s` lines must be pushed onto sys.%s (found %s)" % (k_, v_[0], rows.get(k_)))
-            e = [x for x in walk(arm["body"]) if x.get("k") == "mcall" and callee(x) == P + "get_expr_from_line_id"]
-            ctx.inst("R08.4", "dispatch:output-operand", len(e) == 1 and tok_index(e[0]["args"][1]) == 2, arm["sp"], "output/bad/constraint must reference the expression id in token 2")
+    for op, fn_ in (("ite", "parse_ternary_op"), ("write", "parse_ternary_op"), ("const", "parse_format"), ("constd", "parse_format"), ("consth", "parse_format"), ("zero", "parse_format"), ("one", "parse_format"), ("ones", "parse_ones"),
+                    ("sort", "parse_sort"), ("state", "parse_state"), ("input", "parse_input"), ("init", "parse_state_init_or_next"), ("next", "parse_state_init_or_next")):
+        ctx.inst("R08.4", "dispatch:%s" % op, seen.get(op) == [fn_], f["span"], "`%s` must be handled by %s (found %s)" % (op, fn_, seen.get(op)))
+    def op_keys(node):
+        """the operator literals under which `node` runs"""
+        keys = set()
+        for conds in norm__.expand_enum_conditions(ix, norm__.path_conditions(ix, node, arms=True)):
+            cur = None                      # a conjunction: the operator is in every one of the literal sets tested on this path
+            for c_, pol in conds:
+                if pol and c_.get("k") == "armpat":
+                    lits = set()
+                    for alt in pat_alts(c_["pat"]):
+                        while alt.get("k") in ("pref", "pderef"):
+                            alt = alt["pat"]
+                        if alt.get("k") == "plit" and isinstance(alt.get("v"), str):
+                            lits.add(alt["v"])
+                    if lits:
+                        cur = lits if cur is None else (cur & lits)
+            keys |= (cur or set())
+        return keys
+    # init vs next flag
+    c = [x for x in ix.nodes if x.get("k") == "mcall" and callee(x) == P + "parse_state_init_or_next"]
+    ok = False
+    if len(c) == 1:
+        fl = resolve(c[0]["args"][2])
+        if fl.get("k") == "binary" and fl["op"] == "==":
+            for a_, b_ in ((fl["l"], fl["r"]), (fl["r"], fl["l"])):
+                if peel(a_).get("k") == "local" and peel(b_).get("k") == "lit" and peel(b_).get("v") == "init":
+                    # `op == "init"` on the operator token that was dispatched on
+                    ok = any(c_.get("k") == "armpat" and is_local(c_["scrut"], peel(a_)["id"]) for cs in norm__.expand_enum_conditions(ix, norm__.path_conditions(ix, c[0], arms=True)) for c_, _ in cs)
+                if peel(a_).get("k") == "local" and peel(b_).get("k") == "def" and str(peel(b_).get("dk", "")).startswith("ctor"):
+                    # `kind == LineKind::Init` with kind classified from the operator token: Init exactly for "init"
+                    alts = norm__._variant_conditions(ix, {"scrut": a_, "pat": {"k": "pvariant", "path": peel(b_)["path"], "subs": []}})
+                    lits = set()
+                    for cs in alts or []:
+                        for c_, pol in cs:
+                            if pol and c_.get("k") == "armpat":
+                                lits |= {alt.get("v") for alt in pat_alts(c_["pat"]) if alt.get("k") == "plit"}
+                    ok = bool(alts) and lits == {"init"}
+    if c:
+        ctx.inst("R08.4", "dispatch:init-flag", ok, c[0]["sp"], "init/next lines must pass `op == \"init\"` as the is-init flag: %s" % (show(c[0]["args"][2]) if c else "?"))
+    # output / bad / constraint push the referenced expression (token 2) to the right list
+    rows = {}
+    for x in ix.nodes:
+        if x.get("k") == "mcall" and x["name"] == "push":
+            fp_ = field_path(x["recv"])
+            if fp_ and fp_[0] == "self" and len(fp_[2]) == 2 and fp_[2][0] == "sys":
+                for k_ in op_keys(x):
+                    rows.setdefault(k_, []).append(fp_[2][-1])
+    if rows:
+        want2 = {"output": ["outputs"], "bad": ["bad_states"], "constraint": ["constraints"]}
+        for k_, v_ in want2.items():
+            ctx.inst("R08.4", "dispatch:%s-list" % k_, rows.get(k_) == v_, f["span"], "`%s` lines must be pushed onto sys.%s (found %s)" % (k_, v_[0], rows.get(k_)))
+        e = [x for x in ix.nodes if x.get("k") == "mcall" and callee(x) == P + "get_expr_from_line_id" and "output" in op_keys(x)]
+        ctx.inst("R08.4", "dispatch:output-operand", len(e) == 1 and tok_index(e[0]["args"][1]) == 2, e[0]["sp"] if e else f["span"], "output/bad/constraint must reference the expression id in token 2")
 
 
 def literals(ctx):
